@@ -147,9 +147,11 @@ def fresh(c1=(), deep=()):
 class Env:
     """Origin analysis of one function."""
 
-    def __init__(self, repo, fi, param_tags, outer=None, summaries=None):
+    def __init__(self, repo, fi, param_tags, outer=None, summaries=None,
+                 selfattrs=None):
         self.repo = repo
         self.fi = fi
+        self.selfattrs = selfattrs or {}
         self.param_vals = {}
         for k, v in param_tags.items():
             t, c = v
@@ -301,7 +303,11 @@ class Env:
                 e.elt]
             return self.contain([self.ev(x) for x in elts])
         if isinstance(e, ast.Attribute):
-            return self.attr(self.ev(e.value), e.attr)
+            base = self.ev(e.value)
+            if e.attr in self.selfattrs and base.tags == {SELF}:
+                t, c = self.selfattrs[e.attr]
+                return Val(set(t), set(c), set(c))
+            return self.attr(base, e.attr)
         if isinstance(e, ast.Subscript):
             base = self.ev(e.value)
             el = self.elem(base)
